@@ -422,7 +422,14 @@ def par_check(pid, header, ctype, terms, preds, name, workers=4):
 
 
 def eval_cases(cases, obs, name):
-    terms = [case_to_coq(c, o) for c, o in zip(cases, obs)]
+    try:
+        terms = [case_to_coq(c, o) for c, o in zip(cases, obs)]
+        return _eval_terms(terms, name)
+    except (vlib.InfraError, KeyError, ValueError, TypeError) as e:
+        raise vlib.TieBroken("the implementation's observations could not be evaluated against the model (unexpected shape): %s" % str(e)[-1500:])
+
+
+def _eval_terms(terms, name):
     return par_check("C09", HEADER, "ccase", terms, {"agree": "case_agrees", "oracle": "case_oracle", "moracle": "case_model_oracle"}, name)
 
 
@@ -621,10 +628,14 @@ def run(res, tier, seed):
             rr = eval_cases(cands, o["cases"], "Shrink_C09")
             bad = sorted(set(rr["agree"]))
             return bad[0] if bad else None
-        small = shrink_case(c, fails) if len(real_dis) < 40 else c
-        small = dict(small, id=0)
-        o = run_impl([small], "shrink")
-        rr = eval_cases([small], o["cases"], "Shrink_C09")
+        try:
+            small = shrink_case(c, fails) if len(real_dis) < 40 else c
+            small = dict(small, id=0)
+            o = run_impl([small], "shrink")
+            rr = eval_cases([small], o["cases"], "Shrink_C09")
+        except Exception as e:                      # shrinking is best effort: report the unshrunk case
+            res.notes.append("shrinking failed: %s" % str(e)[-300:])
+            small, o, rr = dict(c, id=0), {"cases": [obs[real_dis[0]]]}, {"oracle": [0] if real_dis[0] in orf else []}
         res.violation("model and implementation disagree on a compaction history",
                       {"kind": "correspondence", "correspondence": TIE_NAME, "case": dict(small, cycles=[[list(x) for x in ocs] for ocs in small["cycles"]]),
                        "observed": o["cases"][0]["cycles"], "disagreeing_cases": len(real_dis), "oracle_fails_on_impl": bool(rr["oracle"])},
